@@ -123,6 +123,16 @@ def _run_unit(unit, out_root):
         cwd = os.path.join(VERIF, "witness", "shapes")
         if not os.path.isdir(cwd):
             return {"unit": unit, "skipped": True, "files": 0, "wall_s": 0}
+        if os.path.abspath(REPO) != "/repo":
+            # development runs against a scratch worktree (ARK_REPO): the witness crate path-depends on /repo, so a copy
+            # with its dependency paths rewritten is analysed instead (the registered commands never take this branch)
+            alt = os.path.join(CACHE, "shapes-alt")
+            shutil.rmtree(alt, ignore_errors=True)
+            shutil.copytree(cwd, alt, ignore=shutil.ignore_patterns("target", "Cargo.lock"))
+            mp = os.path.join(alt, "Cargo.toml")
+            txt = open(mp).read().replace('"/repo/', '"%s/' % os.path.abspath(REPO))
+            open(mp, "w").write(txt)
+            cwd = alt
         shutil.copy(os.path.join(REPO, "Cargo.lock"), os.path.join(cwd, "Cargo.lock"))
         cmd = ["cargo", "+nightly", "check", "--offline"]
         _forget_members(tgt, ["verif-shapes", "verif_shapes"])
